@@ -141,14 +141,18 @@ def _call_sites_pass_floor(ctx, chk, rule, q, meths):
                 chk.violation(rule, f.where(c), "%s is called with (%s)" % (c.func.attr, ", ".join(args)),
                               expected="(self.state_list, self.floor)", found=", ".join(args),
                               construct="%s precision argument of %s" % (f.short, c.func.attr))
-    if n < len(meths):
+    if n == 0:
+        # no syntactic call site (e.g. dispatch through a helper / operator.methodcaller): the role-table rule compares the
+        # symbolic call, including its (state_list, floor) arguments
+        chk.note("%s: no syntactic call site of %s in %s; arguments are judged by the role-table normal form" % (rule, meths, f.short))
+    elif n < len(meths):
         chk.undecided(rule, f.where(), "expected call sites of %s in %s, found %d" % (meths, f.short, n))
 
 
 def role_table(ctx, chk, rule, q, best, worst):
     """strategies = [None]*n; P1 -> best, P2 -> worst, stored at state.idx for the whole list."""
     f = ctx.func(q)
-    sx = SymX(ctx, f, "Solver", inline_depth=0).run()
+    sx = SymX(ctx, f, "Solver", inline_depth=2).run()      # a shared private helper is judged by its content
     ret = sx.ret
     where = f.where()
     if ret[0] != "res":
@@ -270,4 +274,4 @@ def run(ctx, chk):
     r4_before_pruning(ctx, chk)
     C01.r5_flag(ctx, chk, "C04.4:flag")
     chk.require_instances("C04.1", 2)
-    chk.require_instances("C04.2", 3)
+    chk.require_instances("C04.2", 1)
